@@ -414,14 +414,21 @@ class AstInfo:
             True if self should be covered, False otherwise.
         """
         start_line = scope_line_range(self.ast)[0]
-        return self._in_cover(start_line) and all(
-            self._in_cover(scope_line_range(definition_node)[0])
-            for definition_node in nodes_of_class(
-                self.module.module_ast, (ast.FunctionDef, ast.AsyncFunctionDef, ast.ClassDef)
+        # Whether the scope is defined in a branch that is not covered
+        # can only be told by the scopes that contain it.
+        module_info = AstInfo(ast=self.module.module_ast, module=self.module)
+        return (
+            self._in_cover(start_line)
+            and all(
+                self._in_cover(scope_line_range(definition_node)[0])
+                for definition_node in nodes_of_class(
+                    self.module.module_ast, (ast.FunctionDef, ast.AsyncFunctionDef, ast.ClassDef)
+                )
+                if scope_line_range(definition_node)[0]
+                <= start_line
+                <= scope_line_range(definition_node)[1]
             )
-            if scope_line_range(definition_node)[0]
-            <= start_line
-            <= scope_line_range(definition_node)[1]
+            and module_info.should_cover_line(start_line)
         )
 
     def should_cover_line(self, lineno: int) -> bool:
